@@ -435,6 +435,7 @@ Proof.
   - injection H as <-. apply (wf_same m); auto.
   - unfold add_computed_value, bind in H. inv_guard H. injection H as <-. apply (wf_same m); auto.
   - unfold finalize, bind in H. inv_guard H. injection H as <-. apply (wf_same m); auto.
+  - injection H as <-. apply (wf_same m); auto.
 Qed.
 
 Lemma wf_apply_ops ops : forall m k m', wf m -> apply_ops m ops k = (m', None) -> wf m'.
